@@ -217,6 +217,32 @@ fn table() -> Vec<W> {
         w!("copy_file_range", Count, "COPY_FILE_RANGE", count(u::copy_file_range(fd(3), 0, fd(4), 0, 10))),
         w!("dup2", Fd, "DUP3", unit(u::dup2(fd(3), fd(4)))),
         w!("dup3", Fd, "DUP3", unit(u::dup3(fd(3), fd(4), true))),
+        // degenerate but legal arguments: the kernel still has to be asked, exactly once
+        w!("dup2(same fd)", Fd, "DUP3", unit(u::dup2(fd(3), fd(3)))),
+        w!("read(empty buffer)", Count, "READ", {
+            let mut b = [0u8; 0];
+            count(u::read(fd(3), &mut b))
+        }),
+        w!("write(empty buffer)", Count, "WRITE", count(u::write(fd(3), b""))),
+        w!("get_dents(empty buffer)", Count, "GETDENTS64", {
+            let mut b = [0u8; 0];
+            count(u::get_dents(fd(3), &mut b))
+        }),
+        w!("copy_file_range(len 0)", Count, "COPY_FILE_RANGE", count(u::copy_file_range(fd(3), 0, fd(3), 0, 0))),
+        w!("ppoll(no fds)", Count, "PPOLL", {
+            let mut pf: [PollFd; 0] = [];
+            count(s::ppoll(&mut pf, Some(&TimeSpec::new(0, 0)), None))
+        }),
+        w!("epoll_wait(no room)", Count, "EPOLL_PWAIT", {
+            let mut ev: [EpollEvent; 0] = [];
+            count(s::epoll_wait(fd(3), &mut ev, 0))
+        }),
+        w!("futex_wake(0 waiters)", Count, "FUTEX", {
+            let a = core::sync::atomic::AtomicU32::new(0);
+            count(rusl::futex::futex_wake(&a, 0))
+        }),
+        w!("setpgid(self)", Unit, "SETPGID", unit(u::setpgid(0, 0))),
+        w!("rename(same path)", Unit, "RENAMEAT2", unit(u::rename(P, P))),
         w!("fcntl_get_file_status", Fd, "FCNTL", match u::fcntl_get_file_status(fd(3)) {
             Ok(f) => Dec0::Ok(Some(f.bits().value() as u64)),
             Err(e) => Dec0::Err(e.code.map(|c| c.raw())),
